@@ -431,6 +431,16 @@ func (*changedColState).Reset
   modifies s.prev, s.hasPrev
   ensures !s.hasPrev && s.prev == nil
 
+// changed_cols: per-column baselines; a column that is an ignored NULL on this row keeps its baseline
+pred ccTaken(ign, cols, k) := dom(cols, k) && !(ign && cols[k] == nil)
+
+func (*changedColsState).ApplyColumns
+  props C14
+  modifies s.prev, mapof(s.prev)
+  ensures every-column-keeps-or-renews-its-own-baseline: s.prev != nil && forallv(k, "", (dom(s.prev, k) <==> old(dom(s.prev, k)) || ccTaken(ignoreNull, cols, k)) && (dom(s.prev, k) ==> s.prev[k] == ite(ccTaken(ignoreNull, cols, k), cols[k], old(s.prev[k]))))
+  loop 1 invariant s.prev != nil && (old(s.prev) != nil ==> s.prev == old(s.prev)) && (old(s.prev) == nil ==> fresh(s.prev))
+  loop 1 invariant forallv(k, "", (dom(s.prev, k) <==> old(dom(s.prev, k)) || ($visited[k] && ccTaken(ignoreNull, cols, k))) && (dom(s.prev, k) ==> s.prev[k] == ite($visited[k] && ccTaken(ignoreNull, cols, k), cols[k], old(s.prev[k]))))
+
 func (*accState).resetState
   props C14
   modifies s.sum, s.count, s.num, s.hasNum, s.started
